@@ -18,6 +18,7 @@ import itertools
 import re
 
 from vx import campaign, harness, progs
+from vx.harness import vyxal
 
 RULE = ("element/context sweep + generated full-grammar programs (with end-truncations) + exhaustive short programs "
         "over a 14-symbol structural alphabet; non-trivial = an element or structure nested inside a structure, or a "
@@ -57,7 +58,12 @@ def check_text(text, settings=SETTINGS):
             compile(out, "<vy>", "exec")
         except SyntaxError as e:
             line = (e.text or "").strip()
-            return (f"C02:SyntaxError:{_norm_msg(e)}",
+            nm = _norm_msg(e)
+            if nm == "incomplete-python-unicode-escape-in-string-literal" and not re.search(r"\\[xuUN]", text):
+                # the known finding is a backslash escape the USER wrote (`\x`, `\u12`, `\N`) being passed through;
+                # the same compiler message without such an escape in the program is a different defect
+                nm = "python-unicode-escape-that-the-program-does-not-contain"
+            return (f"C02:SyntaxError:{nm}",
                     f"transpile({text!r}, dict_compress={dc}, variables_as_digraphs={vd}) is not valid Python: {e.msg} at line {e.lineno}: {line!r} [flags {tag or '-'}]")
         except ValueError as e:  # e.g. null bytes
             return (f"C02:compile-ValueError:{_norm_msg(e)}", f"compile of transpile({text!r}) raised {e!r}")
@@ -300,6 +306,27 @@ def _shard_raw(rec, arg):
                     rec.fail(r[0] + ":raw-string", {"raw2": a_ + b_}, r[1])
 
 
+def _shard_dictcodes(rec, arg):
+    """Every dictionary-compression character next to every escape-relevant neighbour (the expansion of a code
+    is spliced into a Python literal: what it starts / ends with must not combine with its neighbours)."""
+    shard, nshards = arg
+    codes = list(dict.fromkeys(vyxal.encoding.compression))
+    forms = ["{c}", "{c}{c}", "{c}\\a", "{c}\\\\", "a{c}\\a", "{c}\"", "\"{c}", "{c}\n", "\\a{c}", "\\{c}", "{c}\\{c}", "{c} {c}a", "{c}0", "{c}x41", "{c}{c}\\a"]
+    for i, c in enumerate(codes):
+        if i % nshards != shard:
+            continue
+        for f in forms:
+            raw = f.replace("{c}", c)
+            if not raw_string_ok(raw):
+                continue
+            for tpl in ("{}", "λ{};"):
+                text = tpl.replace("{}", "`" + raw + "`")
+                r = check_text(text, settings=SETTINGS[:2])
+                rec.case(nontrivial=True, cls=["dictionary-code-neighbours"])
+                if r:
+                    rec.fail(r[0] + ":dictionary-code", {"rawcode": raw}, r[1])
+
+
 def _shard_hyp(rec, arg):
     seed, n = arg
 
@@ -326,6 +353,8 @@ def run(rec, tier, seed):
     RL = 5 if quick else 7
     campaign.parallel(rec, _shard_raw, [(L, s_, 1 if L <= 4 else ns) for L in range(0, RL + 1) for s_ in range(1 if L <= 4 else ns)])
     rec.exhaustive.append(f"raw back-quoted string sources of length<={RL} over {{backslash, double quote, back-quote, newline, a, '}} in {len(RAW_CONTEXTS)} contexts; all two-character strings over them")
+    campaign.parallel(rec, _shard_dictcodes, [(s_, ns) for s_ in range(ns)])
+    rec.exhaustive.append("every dictionary-compression character x 15 neighbour forms (backslash escapes, quotes, newline, itself) x 2 contexts")
     n = 700 if quick else 25000
     campaign.parallel(rec, _shard_hyp, [(seed * 1000 + i, n) for i in range(ns)])
     if not quick:
@@ -344,6 +373,12 @@ def replay(case):
             return None
         r = check_text(ctxs[case["ctx"]].replace("{}", "`" + raw + "`"), settings=SETTINGS[:2])
         return (r[0] + ":raw-string", r[1]) if r else None
+    if "rawcode" in case:
+        raw = case["rawcode"]
+        if not isinstance(raw, str) or len(raw) > 12 or not raw_string_ok(raw) or not all(c in vyxal.encoding.codepage for c in raw):
+            return None
+        r = check_text("`" + raw + "`", settings=SETTINGS[:2]) or check_text("λ`" + raw + "`;", settings=SETTINGS[:2])
+        return (r[0] + ":dictionary-code", r[1]) if r else None
     if "raw2" in case:
         t2 = case["raw2"]
         if not isinstance(t2, str) or len(t2) != 2 or any(c not in RAW_ALPHA + ["`"] for c in t2):
